@@ -13,8 +13,9 @@
 
 #define MAXI 8192
 #define MAXW 4096
-enum { K_ASYNC, K_BASYNC, K_SYNC, K_BSYNC, K_AAW, K_BAAW, K_GASYNC };
-static const char *KN[] = { "ra", "ba", "rs", "bs", "rw", "bw", "ga" };
+enum { K_ASYNC, K_BASYNC, K_SYNC, K_BSYNC, K_AAW, K_BAAW, K_GASYNC, K_AFTER };
+#define IS_SYNC_KIND(k) ((k) == K_SYNC || (k) == K_BSYNC || (k) == K_AAW || (k) == K_BAAW)
+static const char *KN[] = { "ra", "ba", "rs", "bs", "rw", "bw", "ga", "aa" };
 static dispatch_group_t g_grp;
 enum { B_NONE, B_SPIN, B_OWNSUSP, B_CHILD };
 
@@ -83,6 +84,7 @@ static void submit(item_t *it)
 		case K_AAW: dispatch_async_and_wait_f(g_q, it, item_fn); break;
 		case K_BAAW: dispatch_barrier_async_and_wait_f(g_q, it, item_fn); break;
 		case K_GASYNC: dispatch_group_async_f(g_grp, g_q, it, item_fn); break;
+		case K_AFTER: dispatch_after_f(dispatch_time(DISPATCH_TIME_NOW, (int64_t)(vrt_rand() % 3000000)), g_q, it, item_fn); break;
 		}
 	} else {
 		dispatch_block_t plain = ^{ item_fn(it); };
@@ -101,11 +103,12 @@ static void submit(item_t *it)
 		case K_AAW: dispatch_async_and_wait(g_q, b); break;
 		case K_BAAW: dispatch_barrier_async_and_wait(g_q, b); break;
 		case K_GASYNC: dispatch_group_async(g_grp, g_q, b); break;
+		case K_AFTER: dispatch_after(dispatch_time(DISPATCH_TIME_NOW, (int64_t)(vrt_rand() % 3000000)), g_q, b); break;
 		}
 		if (made) _Block_release(made);
 	}
 	it->ret_seq = vrt_api("Ret", g_obj, it->id, it->kind, 0);
-	if (it->kind >= K_SYNC && it->kind != K_GASYNC) {
+	if (IS_SYNC_KIND(it->kind)) {
 		/* C05: a synchronous submission returns after completion and sees the item's writes */
 		if (atomic_load(&it->runs) != 1 || it->end_seq == 0) oracle_fail("C05", "sync returned before its item finished", it->id, it->kind);
 		if (it->result != (it->id ^ 0x5a5a)) oracle_fail("C05", "item's writes not visible after sync return", it->id, it->result);
@@ -232,6 +235,7 @@ static void *client(void *arg)
 				continue;
 			}
 			if (g_susp == 2 && vrt_rand() % 100 < 40) { susp_pair(storm_depth()); continue; }
+			if (vrt_rand() % 100 < 4) { it = new_item(K_AFTER, (int)me, body); if (!it) break; submit(it); continue; }
 			if (g_W == 1) {
 				if (k < 26) it = new_item(K_ASYNC, (int)me, body);
 				else if (k < 34) it = new_item(K_GASYNC, (int)me, body);
@@ -385,7 +389,8 @@ static void check_execution(int nitems, int serial)
 				oracle_fail(serial ? "C02" : "C04", "barrier/serial item overlapped another item", a->id, b->id);
 			/* a's submission returned before b's began  =>  a finished before b started.
 			 * (a child submitted from inside an item is ordered by its own Call/Ret like any other) */
-			if (a->ret_seq && a->ret_seq < b->call_seq && !(a->end_seq < b->start_seq))
+			/* (dispatch_after enqueues its item when the timer fires, not when the call returns) */
+			if (a->kind != K_AFTER && a->ret_seq && a->ret_seq < b->call_seq && !(a->end_seq < b->start_seq))
 				oracle_fail(serial ? "C02" : "C04", "submission order not respected", a->id, b->id);
 		}
 	}
@@ -473,7 +478,7 @@ int main(int argc, char **argv)
 		/* flush: everything submitted so far finishes before this barrier runs */
 		/* items still running when the flush was submitted may submit children (ping-pong) behind it:
 		 * flush again until nothing new was submitted and nothing is pending */
-		int n;
+		int n, clean = 0;
 		for (int round = 0; ; round++) {
 			while (atomic_load(&g_pending_resume) > 0) usleep(100);
 			int before = atomic_load(&g_nitems);
@@ -482,7 +487,12 @@ int main(int argc, char **argv)
 			n = atomic_load(&g_nitems); if (n > MAXI) n = MAXI;
 			int pending = 0;
 			for (int i = 0; i < n; i++) if (atomic_load(&g_items[i].runs) == 0) pending++;
-			if ((n == before + 1 && pending == 0 && atomic_load(&g_pending_resume) == 0) || round > 200) break;
+			/* two clean rounds in a row: an item that a timer enqueued behind the previous flush (dispatch_after) has
+			 * started by then, and the second flush barrier waits for its drainer to finish it */
+			if (n == before + 1 && pending == 0 && atomic_load(&g_pending_resume) == 0) { if (++clean >= 2) break; }
+			else clean = 0;
+			if (round > 400) break;
+			if (pending) usleep(300);      /* dispatch_after items not due yet */
 		}
 		if (dispatch_group_wait(g_grp, dispatch_time(DISPATCH_TIME_NOW, 20ll * NSEC_PER_SEC)) != 0)
 			oracle_fail("C01", "dispatch_group_async items all ran but the group never emptied", 0, 0);
